@@ -193,7 +193,7 @@ func init() {
 			Core: coreAppend(blocksSet(2, 3), 19, 0)})
 		return &modelCheck{id: "C02", owners: map[string]bool{"C02": true}, balWhy: []string{"*"}, families: fams, extra: conservation, evmSum: true,
 			meta: modelMeta("deviation-bounded exhaustive history exploration with reference model + conservation invariant over the implementation's full state",
-				"C02 families: a value history (user stakes, two contracts, 5 free blocks) with up to 3 inserted transactions per block from a 28-template value menu (boundary amounts 1 / balance-fee / balance-fee+1 / 2^255-1 / 2^255 / 2^256-1, self-transfer, boundary-balance sender, staking 1R / 1R+1 / 0, unstaking own / foreign / BOTH genesis stakes, full unstake then re-stake twice in one block, withdrawals 0 / 1 / exact / excessive / repeated, deployment and calls carrying value, value into a reverting contract, plain transfers to contracts) plus evidence, missed signatures (jailing) and proposer-less blocks; D<=2 over the core sub-menu (thorough: 3); plus a family that pushes value through a forwarding contract into a receiver that first reverts (nested revert, then value to the same address), judged by the model-independent conservation sum only; plus every gadget program of C17's alphabet up to length 2 (value-forwarding calls, nested reverts, CREATE, SELFDESTRUCT) in C17's history families, judged by 'total value of the node == total value of native model + reference EVM world' at every height. "+
+				"C02 families: a value history (user stakes, two contracts, 5 free blocks) with up to 3 inserted transactions per block from a 30-template value menu (boundary amounts 1 / balance-fee / balance-fee+1 / 2^255-1 / 2^255 / 2^256-1, self-transfer, boundary-balance sender, staking 1R / 1R+1 / 0, unstaking own / foreign / BOTH genesis stakes, full unstake then re-stake twice in one block, withdrawals 0 / 1 / 84 / everything withdrawable / one above that / excessive / repeated, deployment and calls carrying value, value into a reverting contract, plain transfers to contracts) plus evidence, missed signatures (jailing) and proposer-less blocks; D<=2 over the core sub-menu (thorough: 3); plus a family that pushes value through a forwarding contract into a receiver that first reverts (nested revert, then value to the same address), judged by the model-independent conservation sum only; plus every gadget program of C17's alphabet up to length 2 (value-forwarding calls, nested reverts, CREATE, SELFDESTRUCT) in C17's history families, judged by 'total value of the node == total value of native model + reference EVM world' at every height. "+
 					"Oracle: T(h) = sum of ALL balances + bonded + unbonding power read from the implementation at every height satisfies T(h) = T(h-1) + withdrawn(h) - slashed(h) - feesWithoutProposer(h); no balance exceeds genesis total + all withdrawals (no wrap-around); every individual balance equals the model's.",
 				"contract programs in the menus do not self-destruct (burns by EVM definition are C17's subject)"),
 			guards: func(a *engine.Agg) []string {
